@@ -1,7 +1,7 @@
 (* Extraction of the executable C01 model (ExtrOcamlBasic only). *)
 From Coq Require Import ExtrOcamlBasic.
 From Coq Require Extraction.
-From LJT Require Import model.Huff model.DMarkers model.DFastPath model.DProg.
+From LJT Require Import model.Huff model.DMarkers model.DFastPath model.DProg model.DArith model.DCoef model.DCoefPos.
 Extraction Language OCaml.
 Extraction "x_c01.ml" read_and_start read_header_susp read_header_mem start_input_pass
-  decode_block apply_stores make_d_derived decode_block_fast fstate0 ac_first_loop ac_refine_block lh_setup.
+  decode_block apply_stores make_d_derived decode_block_fast fstate0 ac_first_loop ac_refine_block lh_setup dc_decode ac_decode mcu_positions.
